@@ -122,6 +122,9 @@ func (f *Frame) call(in ssa.Instruction, cc *ssa.CallCommon, st *State) []Term {
 			return []Term{v}
 		}
 		return []Term{TFalse}
+	case "__canUnread":
+		g := c.heapGet(st, ghostCanUnread, ArrSort(SInt, SBool))
+		return []Term{Select(g, args[0][0])}
 	case "__same":
 		var cs []Term
 		lay := layout(cc.Args[0].Type())
@@ -177,7 +180,7 @@ func (f *Frame) call(in ssa.Instruction, cc *ssa.CallCommon, st *State) []Term {
 		// anonymous function called directly
 		return f.inline(callee, args, nil, st, in)
 	}
-	if blk == nil && inModule(callee) && f.depth < 3 && smallLeaf(callee) && !c.eng.isRecursive(callee) {
+	if blk == nil && inModule(callee) && f.depth < 3 && smallLeaf(callee) && (samePackage(callee, f.topFrame().fn) || callFree(callee)) && !c.eng.isRecursive(callee) {
 		if res, ok := f.tryInline(callee, args, st, in); ok {
 			return res
 		}
@@ -1018,7 +1021,8 @@ func smallLeaf(fn *ssa.Function) bool {
 		n += len(b.Instrs)
 		for _, in := range b.Instrs {
 			switch in.(type) {
-			case *ssa.Go, *ssa.Select, *ssa.Defer, *ssa.MakeClosure, *ssa.Send:
+			case *ssa.Go, *ssa.Select, *ssa.Defer, *ssa.MakeClosure, *ssa.Send, *ssa.Panic:
+				// explicit panics belong to the callee's own verification unit
 				return false
 			}
 		}
@@ -1041,4 +1045,32 @@ func (f *Frame) tryInline(fn *ssa.Function, args [][]Term, st *State, in ssa.Ins
 	}()
 	res = f.inline(fn, args, nil, st, in)
 	return res, true
+}
+
+func samePackage(a, b *ssa.Function) bool {
+	pa, pb := a.Package(), b.Package()
+	if pa == nil && a.Parent() != nil {
+		pa = a.Parent().Package()
+	}
+	if pb == nil && b.Parent() != nil {
+		pb = b.Parent().Package()
+	}
+	return pa != nil && pa == pb
+}
+
+// callFree: no calls other than builtins (constructors, getters).
+func callFree(fn *ssa.Function) bool {
+	for _, b := range fn.Blocks {
+		for _, in := range b.Instrs {
+			if ci, ok := in.(ssa.CallInstruction); ok {
+				if _, isB := ci.Common().Value.(*ssa.Builtin); !isB {
+					return false
+				}
+			}
+			if _, ok := in.(*ssa.TypeAssert); ok {
+				return false
+			}
+		}
+	}
+	return true
 }
